@@ -569,7 +569,11 @@ def _tasks(rng, tier):
     for i, (tag, ms) in enumerate(models if not quick else models[:3]):
         lv = [[0.5, 0.5], [0.9, 0.3]] if quick else [[0.5, 0.5], [0.9, 0.3], [0.3, 0.9], [0.99, 0.5]]
         tasks.append({"task": "cdf", "tag": tag, "model": ms, "n": 200000, "levels": lv, "as_list": bool(i % 2), "default_sample": i == 0, "seed": S(), "cost": 4.0 if quick else 10.0})
-    # conditional samples: fixed models over all levels, both dims
+    # conditional samples: fixed models over all levels, both dims.
+    # n = 1e5 (the size conditional_cdf itself uses), 1e4 where the sampler is expected to run into max_iter.
+    # Two scenarios lose about 1 % of the conditional mass, i.e. the DKW half width at n = 1e5 itself (a coin flip
+    # over seeds); they are decided with n = 1e6 instead.
+    n_override = {("W-A", 0, "1-1e-4"): 1_000_000, ("N-C", 1, "1-1e-4"): 1_000_000}
     k = 0
     for tag in fixed:
         ms = FIXED[tag]
@@ -577,12 +581,12 @@ def _tasks(rng, tier):
             extreme = name in ("1-1e-6", "1-1e-7")
             k += 1
             tasks.append({"task": "csample", "case": f"csample/{tag}/dim=1/q={name}", "tag": tag, "model": ms, "dim": 1, "level": lv, "level_name": name,
-                          "n": 10000 if extreme else 100000, "rs": rs_kinds[k % 3], "given_as": ["float", "array"][k % 2], "seed": S(), "cost": 3.0 if extreme else 0.5})
+                          "n": n_override.get((tag, 1, name), 10000 if extreme else 100000), "rs": rs_kinds[k % 3], "given_as": ["float", "array"][k % 2], "seed": S(), "cost": 3.0 if extreme else 0.5})
         for name, lv in [LEVELS[0], LEVELS[1], LEVELS[3], LEVELS[5], LEVELS[7]]:
             extreme = name in ("1-1e-6", "1-1e-7")
             k += 1
             tasks.append({"task": "csample", "case": f"csample/{tag}/dim=0/q={name}", "tag": tag, "model": ms, "dim": 0, "level": lv, "level_name": name,
-                          "n": 10000 if extreme else 100000, "rs": rs_kinds[k % 3], "given_as": "float", "seed": S(), "cost": 3.0 if extreme else 1.0})
+                          "n": n_override.get((tag, 0, name), 10000 if extreme else 100000), "rs": rs_kinds[k % 3], "given_as": "float", "seed": S(), "cost": 3.0 if extreme else 1.0})
     # random models: bulk levels must pass; the most extreme level is reported under one aggregated case id
     for tag, ms in rand:
         for name, lv in [LEVELS[1], LEVELS[2], LEVELS[3]]:
